@@ -56,7 +56,23 @@ func (c *Ctx) statSend(in ssa.Instruction, withStat bool) bool {
 		return false
 	}
 	pl, _ := c.packetOf(in.(ssa.CallInstruction))
-	_, has := pl.Fields["Stat"]
+	v, has := pl.Fields["Stat"]
+	// (one constructor for both kinds of STAT, `newStatPacket(stat)`: the
+	// end marker is the call that passes nil)
+	if q, isP := v.(*ssa.Parameter); has && isP {
+		args := in.(ssa.CallInstruction).Common().Args
+		raw := args[len(args)-1]
+		if mi, isMI := raw.(*ssa.MakeInterface); isMI {
+			raw = mi.X
+		}
+		if call, isC := raw.(*ssa.Call); isC && eng.EffCallee(call) == q.Parent() {
+			if rs := eng.ResolveAllCtx(q, []*ssa.Call{call}); len(rs) == 1 {
+				if k, isK := rs[0].(*ssa.Const); isK && k.IsNil() {
+					has = false
+				}
+			}
+		}
+	}
 	return has == withStat
 }
 
@@ -78,6 +94,7 @@ func r06_1(c *Ctx, rule string) {
 		c.R.Missing(rule, "update of sender.files in the walk callback")
 		return
 	}
+	defer c.scope(lit)()
 	// the counter cell: a captured variable or a field of a captured state
 	// object, identified by the allocation it lives in
 	ld, _ := eng.Strip(upd.Key).(*ssa.UnOp)
